@@ -1,3 +1,147 @@
-/- C07 property theorems (not written yet) -/
+/-
+C07 — no client-controlled header text can crash request parsing.
+Property theorems only (lemmas: Lemmas/HttpSafe*.lean, Lemmas/HttpTerm*.lean).
+
+The model (Model/Http.lean) is exception-aware: every Python operation that can raise (`s[0]`,
+`s[-1]`, `int()`, `_plain_int`, `b64decode`, `.decode()`, tuple unpacking of `split`, the `Range`
+constructor) is a primitive returning `Except String` and every `try/except` is a `catching` on the
+listed classes. `Safe x` says that `x` returns a value: no exception of any class escapes — for
+**every** input text (`∀ s : List Char`, no length bound). None of the modelled parsers raises an
+HTTP exception either, so `Safe` is the whole claim. Termination is Lean's acceptance of the
+definitions (structural recursion; the two `while` loops carry fuel, shown never to run out).
+-/
+import WzVerif.Lemmas.HttpSafeAccept
+import WzVerif.Lemmas.HttpTermEtag
 namespace Wz.Props.C07
+open Wz Wz.Http
+
+/-- no exception escapes -/
+abbrev Safe {α : Type} (x : Except String α) : Prop := Wz.Http.Safe x
+
+/-! ### key=value dicts, Cache-Control -/
+
+/-- `parse_dict_header(s)` returns a dict for every text `s`: `key[-1]` is evaluated only after the
+`if not key: continue` guard, and (after the F07e repair) the key left by stripping a trailing `*`
+is checked again before use. -/
+theorem parseDict_total_safe (s : Str) : Safe (parseDictHeader s) := parseDictHeader_safe s
+
+/-- regression F07e: the item `*=x` is skipped, not stored under an empty key -/
+theorem parseDict_star_only_key : parseDictHeader ['*', '=', 'x'] = .ok [] := by decide
+
+/-- `parse_cache_control_header(s)` returns a directive dict for every `s` ... -/
+theorem parseCacheControl_total_safe (s : Str) : Safe (parseCacheControl s) := parseCacheControl_safe s
+
+/-- ... and every typed accessor returns a value on every dict: the `int()` conversion is the only
+partial operation and its ValueError is caught. -/
+theorem cacheControl_get_total_safe (d : Dict (Option Str)) (key : Str) (empty : CCVal) (ty : CCType) :
+    Safe (getCacheValue d key empty ty) := getCacheValue_safe d key empty ty
+
+/-! ### option headers -/
+
+/-- `parse_options_header(s)` returns `(value, options)` for every text `s`. The content is the
+invariant that makes the unguarded `pk[-1]`, `pv[0]`, `pv[-1]` safe: every part collected by the
+scanner has a non-empty key and a non-empty value (a token of ≥ 1 character or a quoted string of
+≥ 2), RFC 2231 percent-decoding never produces the empty string from a non-empty one, and a key that
+is only `*` is dropped before its value is looked at (F07e repair). -/
+theorem parseOptions_total_safe (s : Str) : Safe (parseOptionsHeader s) := parseOptionsHeader_safe s
+
+/-- regression F07e: a parameter named only `*` is dropped -/
+theorem parseOptions_star_only_key :
+    parseOptionsHeader "text/html;*=x".toList = .ok ("text/html".toList, []) := by decide
+
+/-- the `while True` scanner terminates: each iteration that continues has consumed at least the `;`
+it searched for, so `len(rest) + 1` iterations always suffice (more fuel changes nothing). -/
+theorem parseOptions_scanner_terminates (f1 f2 : Nat) (rest : Str) (acc : List (Str × Str))
+    (h1 : rest.length < f1) (h2 : rest.length < f2) : optScan f1 rest acc = optScan f2 rest acc :=
+  optScan_fuel_irrelevant f1 f2 rest acc h1 h2
+
+example : "a=1; b=\"x;y\"; ;c".toList.length < 40 := by decide
+
+/-! ### Accept headers (finding F07g) -/
+
+/-- `parse_accept_header` re-serialises the parameters of every item with `dump_options_header`,
+which indexes `key[-1]`. The F07e repair drops a parameter named `*`, but a parameter named `*0`
+(an RFC 2231 continuation marker with nothing before it) still leaves an **empty key** in the
+options of `parse_options_header`: -/
+theorem parseOptions_continuation_only_key :
+    parseOptionsHeader "text/html;*0=x".toList = .ok ("text/html".toList, [([], ['x'])]) := by decide
+
+/-- ... and the full-strength statement `∀ s, Safe (parseAcceptHeader s)` is therefore **false**
+(known finding F07g; replay `Accept: text/html;*0=x` ⇒ IndexError on the real code). -/
+theorem parseAccept_total_safe_full_false :
+    ¬ (∀ s : Str, Safe (parseAcceptHeader s)) := by
+  intro h
+  obtain ⟨v, hv⟩ := h "text/html;*0=x".toList
+  have : parseAcceptHeader "text/html;*0=x".toList = .error "IndexError" := by decide
+  rw [this] at hv
+  cases hv
+
+/-- `parse_accept_header(s)` returns its list for every `s` none of whose items carries a parameter
+with an empty name (exactly the family excluded by F07g): the `q` value is converted with `float`
+only after the regex matched, and `key[-1]` is applied to non-empty keys only. -/
+theorem parseAccept_total_safe_partial (s : Str) (h : ∀ item ∈ parseListHeader s, NoEmptyKey item) :
+    Safe (parseAcceptHeader s) := parseAcceptHeader_safe_partial s h
+
+example : parseAcceptHeader "text/html;level=1;q=0.5, */*;q=0.1, x;q=2".toList
+    = .ok [("text/html; level=1".toList, "0.5".toList), ("*/*".toList, "0.1".toList)] := by decide +kernel
+
+/-! ### entity tags -/
+
+/-- `parse_etags` is a total function of its text by construction; its `while pos < end` loop
+terminates on every header text (no LF): each regex match ends strictly to the right of where it
+started, so `len(value) + 1` iterations always suffice. -/
+theorem parseEtags_terminates (f1 f2 : Nat) (s : Str) (st wk : List (Option Str))
+    (hlf : '\n' ∉ s) (h1 : s.length < f1) (h2 : s.length < f2) :
+    parseEtagsGo f1 s st wk = parseEtagsGo f2 s st wk :=
+  parseEtagsGo_fuel_irrelevant f1 f2 s st wk hlf h1 h2
+
+example : '\n' ∉ "W/\"a\", \"b\" ,,*".toList := by decide
+
+/-! ### Range, Content-Range, Age -/
+
+/-- `parse_range_header(s)` returns a `Range` or `None` for every `s`: every `_plain_int` sits in a
+`try`, and the `Range` constructor's ValueError is unreachable because a begin without `-` is
+non-negative and `begin < end` was checked. -/
+theorem parseRange_total_safe (s : Str) : Safe (parseRangeHeader s) := parseRangeHeader_safe s
+
+/-- what the self-test mutates: without the `try` around `_plain_int` the ValueError escapes -/
+theorem parseRange_needs_try : plainInt "x".toList = .error "ValueError" := by decide
+
+/-- `parse_content_range_header(s)`: the two-field unpacking and all three `_plain_int` calls are
+inside `try ... except ValueError`. -/
+theorem parseContentRange_total_safe (s : Str) : Safe (parseContentRangeHeader s) :=
+  parseContentRangeHeader_safe s
+
+/-- `parse_age(s)`: ValueError of `int()` and OverflowError of `timedelta` are caught. -/
+theorem parseAge_total_safe (s : Str) : Safe (parseAge s) := parseAge_safe s
+
+/-! ### Authorization / WWW-Authenticate -/
+
+/-- `Authorization.from_header(s)` returns an object or `None` for every `s`: `b64decode` raises
+`binascii.Error` (bad padding / length) or plain `ValueError` (non-ASCII text, caught since the F07a
+repair) and `.decode()` raises `UnicodeDecodeError` — all in the `except` clause. -/
+theorem authorization_total_safe (s : Str) : Safe (authorizationFromHeader s) := authorizationFromHeader_safe s
+
+/-- regression F07a: non-ASCII Basic credentials give `None` -/
+theorem authorization_non_ascii_basic :
+    authorizationFromHeader ("Basic ".toList ++ [Char.ofNat 0xff, Char.ofNat 0xfe]) = .ok none := by decide
+
+/-- the primitive really raises plain ValueError there (what reverting the repair exposes) -/
+theorem b64decode_non_ascii : b64Decode [Char.ofNat 0xff] = .error "ValueError" := by decide
+
+theorem wwwAuthenticate_total_safe (s : Str) : Safe (wwwFromHeader s) := wwwFromHeader_safe s
+
+/-
+-- OPEN (known finding F07d): `Request.url/base_url/host_url/root_url/url_root` pass the Host header
+--   through `urllib.parse.urlsplit(...).port/.hostname`, which raise ValueError for a non-numeric or
+--   out-of-range port and for unbalanced / invalid `[...]`. `urlsplit` is Python's and is not
+--   modelled; the failing family is replayed on the real code by the harness on every run.
+-- OPEN (known finding F07f): `parse_date` catches (TypeError, ValueError) around
+--   `email.utils.parsedate_to_datetime`, which raises OverflowError for numbers that do not fit a
+--   C int / long (year, hour, or zone such as `+99999999999999999999`). `email.utils` is Python's;
+--   the general date parser is not modelled (only its IMF-fixdate restriction, Model/Date.lean).
+-- OPEN: P1 `Request` attribute layer as Lean compositions (`_DictAccessorProperty.__get__`); the
+--   attributes are exercised on the real code by stream `hostile` (every public attribute).
+-/
+
 end Wz.Props.C07
